@@ -98,10 +98,15 @@ def replay(f):
                 elif op == "queries":
                     for n in list(tr.graph.nodes()):
                         tr.predecessors(n), tr.successors(n), tr.get_time(n), tr.get_position(n), tr.get_pixels(n)
+                        tr.get_times([n]), tr.get_positions([n]), tr.get_positions([n], incl_time=True)
+                        tr.get_position(n, incl_time=True), tr.get_node_attr(n, TID), tr.get_nodes_attr([n], T)
+                        tr.in_degree(np.array([n])), tr.out_degree(np.array([n]))
                         tr.get_track_id(n), tr.get_lineage_id(n)
                         tr.get_track_neighbors(tr.get_track_id(n), tr.get_time(n))
                         tr.has_track_id_at_time(tr.get_track_id(n), tr.get_time(n))
                     tr.nodes(), tr.edges(), tr.in_degree(), tr.out_degree(), tr.get_next_track_id()
+                    tr.get_available_features(), tr.get_next_lineage_id()
+                    _ = tr.max_track_id, tr.track_id_to_node
             except KeyError as e:
                 err = e
             S1 = snapshot(tr)
